@@ -74,7 +74,7 @@ func genXport(r *rng, seed uint64, focus, arm string) *plan.Plan {
 	case "C16":
 		kinds = []string{"udp"}
 	default:
-		kinds = []string{"udp", "tcp", "tcp+pipeline", "tls", "tls+pipeline", "https", "http"}
+		kinds = []string{"udp", "tcp", "tcp+pipeline", "tls", "tls+pipeline", "https", "http", "udp", "tcp", "tcp+pipeline", "tls", "tls+pipeline", "https", "quic", "h3"}
 	}
 	if arm == "exhaust" {
 		u := upSpec(r, 0, []string{"udp", "tcp+pipeline"}[r.intn(2)])
